@@ -110,7 +110,7 @@ fn internals<F: Float>(int: &[u8], frac: &[u8], exp: i32, rec: &mut Value) {
         let num = verif_parse_number(int.iter(), frac.iter(), exp);
         let numj = json!({"mant": limbs(num.mantissa as u128), "exp": num.exponent, "many": num.many_digits});
         if num.try_fast_path::<F>().is_some() {
-            return (numj, "fast".to_string(), Value::Null);
+            return (numj, "fast".to_string(), json!({"mant": [], "exp": 0}));
         }
         let fp = moderate_path::<F>(&num);
         if fp.exp >= 0 {
@@ -125,11 +125,15 @@ fn internals<F: Float>(int: &[u8], frac: &[u8], exp: i32, rec: &mut Value) {
         rec["mod"] = est;
     } else {
         rec["path"] = Value::from("panic");
+        rec["num"] = json!({"mant": [], "exp": 0, "many": false});
+        rec["mod"] = json!({"mant": [], "exp": 0});
     }
 }
 #[cfg(not(feature = "verif"))]
 fn internals<F: Float>(_int: &[u8], _frac: &[u8], _exp: i32, rec: &mut Value) {
     rec["path"] = Value::from("unknown");
+    rec["num"] = json!({"mant": [], "exp": 0, "many": false});
+    rec["mod"] = json!({"mant": [], "exp": 0});
 }
 
 fn run_one(rec: &Value, poison: bool, with_internals: bool) -> Value {
